@@ -38,7 +38,12 @@ func TestMain(m *testing.M) {
 var worldCfg = vworld.Config{
 	MaxPermanodes: 3, MaxAttrClaims: 6, MaxDeletes: 5, MaxChain: 4,
 	MaxFiles: 2, MaxDirs: 1, MaxOpaque: 1, TwoSigners: true, Withhold: true, RefValues: true,
+	Values: append(append([]string(nil), vworld.DefaultValues...), longValue),
 }
+
+// longValue makes the signer-attr-value row of an indexed attribute exceed sorted.MaxKeySize: every
+// sorted implementation skips such a row and must still commit the other rows of the blob.
+var longValue = strings.Repeat("long value ", 70)
 
 func newKV(t *rapid.T, backend string) (kv sorted.KeyValue, cleanup func()) {
 	if backend == "memory" {
@@ -121,9 +126,9 @@ func liveVsReopened(t *rapid.T, cfg vworld.Config, alwaysCorpus bool) {
 		arriving := w.Arriving()
 		ev, class := vworld.DrawSequential(t, w, arriving, true)
 		withCorpus := alwaysCorpus || rapid.IntRange(0, 3).Draw(t, "withCorpus") != 0
-		// quick tier: memory only (file-backed KVs are cheap on an idle machine but
-		// took minutes under load); thorough: all four back ends.
-		backends := []string{"memory"}
+		// quick tier: mostly memory (file-backed KVs are cheap on an idle machine but
+		// slow under load); thorough: half of the cases on the three file-backed ones.
+		backends := []string{"memory", "memory", "memory", "memory", "memory", "memory", "memory", "leveldb", "kvfile", "sqlite"}
 		if evid.Thorough() {
 			backends = []string{"memory", "memory", "memory", "leveldb", "kvfile", "sqlite"}
 		}
